@@ -28,7 +28,7 @@ pub fn n_runs(tier: &str) -> u64 {
 pub fn gen(tier: &str, seed: u64, idx: u64, base: u64) -> Spec {
     let _ = tier;
     let mut rng = Rng::new(seed);
-    let world = pick_world(&mut rng, base, idx, 55, wgen::Profile::Any);
+    let world = if rng.coin(8) { wgen::gen_zoo(&mut rng) } else { pick_world(&mut rng, base, idx, 55, wgen::Profile::Any) };
     let slots = vec![
         SlotCfg::slg(),
         SlotCfg::rec(),
